@@ -29,6 +29,10 @@ BODIES = {"none": "", "text": "hello", "msg": "a\r\n\r\nHTTP/1.1 200 OK\r\nConte
           "high": "ÿþ\u0001z", "long": "b" * 5000}
 
 
+DCTS = {"lib": ["lib"], "null": ["null"], "valid": ["set", "text/plain"], "crlf": ["set", "text/plain\r\nSet-Cookie: session=attacker"],
+        "lf": ["set", "text/plain\nX-Inj: 1"], "cr": ["set", "text/plain\rX-Inj: 1"]}
+
+
 def bad(s):
     return "\r" in s or "\n" in s
 
@@ -74,14 +78,23 @@ def corpus(rng, q):
                         chunks = [rng.choice(["abc", "", "0\r\n\r\n", "é" * 20, "z" * 300]) for _ in range(rng.randint(0, 3))]
                         ev.append({"kind": "resp", "rmethod": m, "rver": v, "rconn": c, "style": style, "code": code,
                                    "reason": REASONS[rk], "hdrs": mk_hdrs(rng, rng.randint(0, 3), False),
-                                   "body": BODIES[bk] if style == "reply" else "", "chunks": chunks if style == "chunked" else []})
+                                   "body": BODIES[bk] if style == "reply" else "", "chunks": chunks if style == "chunked" else [],
+                                   "dct": DCTS[rng.choice(list(DCTS))]})
     # every header name / value token once in an otherwise plain reply
     for nk, vk in itertools.product(NAMES, VALS):
         if NAMES[nk] is not None:
             ev.append({"kind": "resp", "rmethod": "GET", "rver": [1, 1], "rconn": "", "style": "reply", "code": 200, "reason": "OK",
-                       "hdrs": [["X-First", "1"], [NAMES[nk], VALS[vk]], ["X-Last", "2"]], "body": "hello", "chunks": []})
+                       "hdrs": [["X-First", "1"], [NAMES[nk], VALS[vk]], ["X-Last", "2"]], "body": "hello", "chunks": [], "dct": ["lib"]})
     ev.append({"kind": "resp", "rmethod": "GET", "rver": [1, 1], "rconn": "", "style": "reply", "code": 200, "reason": "OK",
-               "hdrs": [["Content-Length", "5"]], "body": "hello", "chunks": []})
+               "hdrs": [["Content-Length", "5"]], "body": "hello", "chunks": [], "dct": ["lib"]})
+    # every default-Content-Type value: handler sets no / its own Content-Type; body / bodiless; plain and streamed replies
+    for dk in DCTS:
+        for hdrs in ([], [["X-A", "v1"]], [["Content-Type", "app/own"]]):
+            for (m, v, c) in (("GET", [1, 1], ""), ("POST", [1, 0], "keep-alive"), ("GET", [1, 1], "close")):
+                for style, code in (("reply", 200), ("reply", 404), ("chunked", 200), ("reply", 204), ("error", 500)):
+                    ev.append({"kind": "resp", "rmethod": m, "rver": v, "rconn": c, "style": style, "code": code, "reason": "OK",
+                               "hdrs": hdrs, "body": "hello" if style == "reply" and code != 204 else "",
+                               "chunks": ["abc", "de"] if style == "chunked" else [], "dct": DCTS[dk]})
     # requests
     for m in ("GET", "POST", "PUT", "DELETE", "HEAD"):
         for uk in URIS:
@@ -103,7 +116,8 @@ def scenario(e):
         else:
             req += "\r\n"
         return {"mode": "server", "cfg": {}, "bytes": req, "segs": [[]], "eof": 0,
-                "reply": {k: e[k] for k in ("style", "code", "reason", "hdrs", "body", "chunks")}}
+                "reply": dict({k: e[k] for k in ("style", "code", "reason", "hdrs", "body", "chunks")},
+                              **({} if e["dct"][0] == "lib" else {"dct": e["dct"][1] if e["dct"][0] == "set" else None}))}
     return {"mode": "client", "cfg": {}, "bytes": "", "segs": [[]], "eof": 0,
             "reqs": [{"m": e["method"], "uri": e["uri"], "hdrs": e["hdrs"], "body": e["body"]}]}
 
